@@ -109,12 +109,20 @@ fn main() {
         let input = std::env::var("VERIF_REPLAY_INPUT").unwrap_or_default();
         checks_misc::replay(&prop, &input, &mut rep);
     } else {
-        match prop.as_str() {
+        // safety net: a panic of the library inside a bounded check that does not guard the call
+        // itself is a failing behaviour of the real code, not a failure of this harness
+        let r = std::panic::catch_unwind(std::panic::AssertUnwindSafe(|| match prop.as_str() {
             "C01" | "C02" | "C03" | "C05" | "C07" | "C12" => checks_parse::run(&prop, thorough, seed, &mut rep),
             "C04" | "C08" | "C13" => checks_print::run(&prop, thorough, seed, &mut rep),
             "C06" | "C14" | "C15" => checks_object::run(&prop, thorough, seed, &mut rep),
             "C09" | "C10" | "C11" | "C20" => checks_misc::run(&prop, thorough, seed, &mut rep),
             _ => { eprintln!("no bounded check for {}", prop); }
+        }));
+        if let Err(e) = r {
+            let msg = e.downcast_ref::<String>().cloned().or_else(|| e.downcast_ref::<&str>().map(|s| s.to_string())).unwrap_or_default();
+            let n = rep.evaluations;
+            let last = rep.checks.last().cloned().unwrap_or_default();
+            rep.violation("the library panicked during a bounded check", "panic", format!("case #{} of `{}`", n + 1, last), msg);
         }
     }
     let js = rep.to_json();
